@@ -14,7 +14,17 @@ import tornado.web, tornado.httpserver  # noqa: E401  (from $VERIF_REPO, see har
 
 ID = "C02"
 LEAN_TARGETS = ["TornadoModel.C02.Props"]
-THEOREMS = ["TornadoModel.C02.chunk_wire_roundtrip", "TornadoModel.C02.identity_coding", "TornadoModel.C02.content_length_text_roundtrip"]
+THEOREMS = [
+    "TornadoModel.C02.chunk_wire_roundtrip",
+    "TornadoModel.C02.identity_coding",
+    "TornadoModel.C02.content_length_text_roundtrip",
+    "TornadoModel.C02.undelimited_closes",
+    "TornadoModel.C02.undelimited_closes_at_finish",
+    "TornadoModel.C02.cl_equals_get_body",
+    "TornadoModel.C02.cWrite_keeps",
+    "TornadoModel.C02.cFinish_closes",
+    "TornadoModel.C02.readLine_line",
+]
 TRUSTED = [
     "the reading of 'a strict HTTP/1.1 client' into Spec.clientParse (C02/Spec.lean, ~150 lines)",
     "fake transport + virtual loop (writes complete immediately; the response path does not depend on write timing)",
@@ -31,7 +41,15 @@ RULE = ("handler programs of <= 8 ops (status/set/add/clear header, write, flush
         "{0,1,15,16,255,256,1023,1024,4096,...} x request shapes (GET/HEAD/POST x HTTP/1.0/1.1 x Connection x If-None-Match); "
         "non-trivial = the program writes data and flushes or writes twice, or hits an error/abort path; distinct by canonical JSON")
 EXHAUSTIVE = {"quick": False, "thorough": False}
-CLAUSES = {}
+CLAUSES = {
+    "exactly one response that a strict client delimits unambiguously, with the final status/headers and the chunks written":
+        "tie only: response_wellframed_goal (stated, not proved) — decided per case by Spec.clientParse on the real wire bytes; "
+        "proved pieces: chunk_wire_roundtrip (every chunk list), readLine_line, content_length_text_roundtrip, identity_coding",
+    "HEAD / 204 / 304 carry no body": "tie only (oracle: body empty and no trailing bytes); model: expected=0 guard after the fix for D25",
+    "a Content-Length equals the length of the body a GET would carry": "cl_equals_get_body (finish()'s automatic value) + content_length_text_roundtrip",
+    "when neither Content-Length nor chunked coding delimits the body the connection is closed after it":
+        "undelimited_closes (decision logic, all request shapes/statuses/header maps) + undelimited_closes_at_finish + cWrite_keeps + cFinish_closes",
+}
 PARALLEL = False   # 1-2 ms per case; forking a pool costs more than it saves
 CASE_TIMEOUT = 20
 
